@@ -107,7 +107,7 @@ def _remap_types(prog, crate, d):
     l2g = [None] * len(local)
     new_entries = []
     for i, e in enumerate(local):
-        s = e['s']
+        s = e.get('uk') or e['s']
         g = prog.tix.get(s)
         if g is None:
             g = len(prog.types)
